@@ -14,7 +14,7 @@ pub mod q1 {
       relation r3(i64, i64);
       relation r4(i64, i64);
       r2(((*v0) + 1)) <-- r1(v0, v1) if ((*v0) != 6) let v2 = ((*v1) + 1), if ((*v0) < 6);
-      r3(0, v0) <-- let v0 = 0, r1(0, v0) if (v0 <= 4) let v1 = (v0 + 1);
+      r3(0, v0) <-- let v0 = 0, r1(0, v0) if (v0 <= 4) let v1 = (v0 + 1), if (v0 <= 6);
       r4((v0 + 1), 0) <-- if let Some(v0) = None::<i64>, r2(v0) if (v0 <= 1), r3(v0, v1), if ((*v1) != 1), if (v0 < 6);
       r4(v0, v1) <-- let v9 = 0, r0(v0, v1), r0(v1, v9);
       r4(v0, v0) <-- for v0 in [2, 2, 4], r0(v0, v0);
@@ -64,7 +64,7 @@ pub mod q5 {
       r2(2) <-- r2(v0) if ((*v0) != 1), r2(v1) if ((*v1) < 6) let v2 = ((*v1) + 0);
       r1(v0, v1) <-- let v9 = 3, r1(v0, v1), r3(v1, v9);
       r0(v1, v0) <-- r0(v0, 1), r0(v1, ((*v0) + 0));
-      r1((v0 + 1), v0) <-- if let Some(v0) = Some(2), r1(v0, 1), r1(v0, 1), if (v0 < 6);
+      r1((v0 + 1), v0) <-- if let Some(v0) = Some(2), r1(v0, 1), r1(v0, 1), if (v0 < 6), if (v0 <= 6);
    }
    pub struct Inst { p: Prog, pool: Option<ascent::rayon::ThreadPool> }
    pub fn make(pool: Option<usize>) -> Box<dyn Driver> {
@@ -102,7 +102,7 @@ pub mod q9 {
       relation r0(i64, i64);
       relation r1(i64, i64);
       relation r2(i64, i64, i64);
-      r1(v3, v1) <-- r0(v0, v1) if ((*v1) <= 6) let v2 = ((*v0) + 0), let v3 = 4, r2((v2 + 1), v2, v4);
+      r1(v3, v1) <-- r0(v0, v1) if ((*v1) <= 6) let v2 = ((*v0) + 0), let v3 = 4, r2((v2 + 1), v2, v4), if (v3 <= 6);
       r2(v1, ((*v3) + 1), v4) <-- for v0 in [3], r1(v1, v2), r2(v0, v3, v4) if ((*v1) < 2), if ((*v3) < 6);
       r1(v0, v2) <-- r1(v0, v1), r0(v1, v2), r1(v2, v3);
       r1(v0, v1) <-- r0(v0, v1) if ((*v0) < 5), r0(v1, v2) if ((*v2) != (*v1));
@@ -150,9 +150,9 @@ pub mod q13 {
       relation r5(i64, i64);
       r4(v0, v2) <-- r3(v0, v1), r0(v1, v2), r0(v2, v3);
       r5(v0, v1) <-- r2(1, 3), r5(v0, v1) if ((*v0) != 5);
-      r4((v0 + 1), v0) <-- if let Some(v0) = Some(1), r2(v1, v0), r1(v1, v1) if (v0 < 1), r1(v1, v2), if (v0 < 6);
+      r4((v0 + 1), v0) <-- if let Some(v0) = Some(1), r2(v1, v0), r1(v1, v1) if (v0 < 1), r1(v1, v2), if (v0 < 6), if (v0 <= 6);
       r2(v1, v2) <-- r4(2, v0), r2(v1, v2), if ((*v0) <= 5);
-      r3(v4, v1) <-- for v0 in 0..4, r5(v0, v1), r1(v2, v3), let v4 = (*v2);
+      r3(v4, v1) <-- for v0 in 0..4, r5(v0, v1), r1(v2, v3), let v4 = (*v2), if (v4 <= 6);
    }
    pub struct Inst { p: Prog, pool: Option<ascent::rayon::ThreadPool> }
    pub fn make(pool: Option<usize>) -> Box<dyn Driver> {
